@@ -3,6 +3,7 @@ import GBProofs.Layout
 import GBProofs.SphericalNorm
 import GBProofs.ArrayDefiniteness
 import GBProofs.OriginShift
+import GBProofs.ArrayAsym
 /-!
 # C01 / C07 — documented layout and "asymmetric = block of the union"
 `Layout.lean`: `locate_offset` / `locate_lt` (basis index ↔ (shell, segment, function): shell, then
@@ -29,3 +30,13 @@ namespace GB.C07
 alias block_origin_shift := momentBlock_origin_shift_list
 alias block_order_zero_is_overlap := momentBlock_order0_eq_overlap
 end GB.C07
+
+/-! `ArrayAsym.lean` (C01, second half; C12 / C13 for two bases): the array of **two different bases** (`overlap_integral_asymmetric`)
+under a rigid motion of both (`overlap_asym_array_moved`, `overlap_asym_array_translate`; generic `entry2_moved_of_blocks_asym`, and
+`entry4_moved_of_blocks_g` / `eri_array_moved_g` for four different bases) and under the contraction rewrites of a shell of either
+basis (`overlap_asym_flat_splitColumns_left/_right`, `…_permPrims`, `…_splitPrim`, `…_scaleColumn_pos/_neg`; generic
+`entry2_replaced_of_blocks_asym`). -/
+namespace GB.C01
+alias asymmetric_overlap_covariant := overlap_asym_array_moved
+alias asymmetric_overlap_split_columns := overlap_asym_flat_splitColumns_left
+end GB.C01
